@@ -22,6 +22,7 @@ Definition d_op (x : sx) : option op :=
   | L [N 4; N m; bn; N e; N a] => do bn' <- d_bool bn; Some (OTrigger m bn' e a)
   | L [N 5; N e; N a] => Some (ODispatch e a)
   | L [N 7] => Some OCopy
+  | L [N 8; N e; sx1; dx1] => do s' <- d_option d_nat sx1; do d' <- d_option d_nat dx1; Some (ORemoveTransition e s' d')
   | _ => None
   end.
 
